@@ -3,7 +3,7 @@
    for bounds tie points.  Witnesses, each replayed against the implementation
    before the proposed repair (handoff/C16-fix-1.diff). *)
 From CfdmV Require Import Common.Base C16.Model C16.Run.
-From Coq Require Import QArith.
+From Coq Require Import QArith Permutation.
 Open Scope nat_scope.
 
 (* F16b: bounds[0, 0] of a subsampled bounds array has shape (1,) instead of
@@ -28,4 +28,53 @@ Theorem C16_old_bounds_last_value_refuted :
 Proof.
   exists [0; 3], [0; 3; 7], [[0#1; 64#1; 128#1]; [1024#1; 2048#1; 4096#1]]%Q.
   split; [vm_compute; reflexivity|split; vm_compute; reflexivity].
+Qed.
+
+(* ------------------------------------------------------------------ *)
+(* Third pass. *)
+
+(* F16d: before handoff/C16-fix3-1 the difference ub - ua was formed in the
+   type in which the tie points are stored.  int16 tie points -30000, 30000:
+   the difference wraps to -5536 and the second tie point comes back as -35536. *)
+Theorem C16_old_stored_arith_int16_refuted :
+  exists tpi tp, oq_eqb (hd None (take1 (dec1_stored_arith SI16 tpi tp) [4] [0])) (Some (-35536 # 1)%Q) = true
+                 /\ oq_eqb (hd None (take1 (dec1 false Linear tpi tp) [4] [0])) (Some (30000 # 1)%Q) = true.
+Proof.
+  exists [0; 4], [inject_Z (-30000); inject_Z 30000]. split; vm_compute; reflexivity.
+Qed.
+
+(* F16d, float32 tie points 0.1f and 1000.7f: ub - ua rounded to float32 is off
+   by 2^-15, so the tie point at index 4 is not reproduced (the repaired code
+   reproduces it). *)
+Theorem C16_old_stored_arith_float32_refuted :
+  exists tpi tp, oq_eqb (hd None (take1 (dec1_stored_arith SF32 tpi tp) [4] [0])) (Some (tpv tp 1)) = false
+                 /\ oq_eqb (hd None (take1 (dec1 false Linear tpi tp) [4] [0])) (Some (tpv tp 1)) = true.
+Proof.
+  exists [0; 4], [inj (NFlt 13421773 (-27)); inj (NFlt 16395469 (-14))]. split; vm_compute; reflexivity.
+Qed.
+
+(* Seeded variant (coefficient s computed in result_type(stored type, float32)):
+   float32 tie points 0 and 3 over 3 intervals: element 1 is 3 * float32(1/3),
+   not the Appendix J value 1. *)
+Theorem C16_s_in_float32_refuted :
+  exists tpi tp, oq_eqb (hd None (take1 (dec1_s32 SF32 tpi tp) [1] [0])) (Some (1 # 1)%Q) = false
+                 /\ oq_eqb (hd None (take1 (dec1 false Linear tpi tp) [1] [0])) (Some (1 # 1)%Q) = true.
+Proof.
+  exists [0; 3], [0 # 1; 3 # 1]%Q. split; vm_compute; reflexivity.
+Qed.
+
+(* Seeded variant (no sorted() in __init__ nor in _broadcast_bounds): the result
+   depends on the insertion order of tie_point_indices - vertices 1 and 3 of
+   every bounds cell change places. *)
+Theorem C16_unsorted_dict_order_refuted :
+  exists tp tpis tpis' ix,
+    Permutation.Permutation tpis tpis' /\ NoDup (map fst tpis) /\
+    obs_eqb (getitem_sa_gen false false IBilinear true [4; 8] SF64 tp tpis [] [] None ix)
+            (getitem_sa_gen false false IBilinear true [4; 8] SF64 tp tpis' [] [] None ix) = false.
+Proof.
+  exists (TP2 [[NInt 0; NInt 64; NInt 128]; [NInt 1024; NInt 2048; NInt 4096]]),
+         [(0, [0; 3]); (1, [0; 3; 7])], [(1, [0; 3; 7]); (0, [0; 3])],
+         [IPos [0]; IPos [0]; IPos [0; 1; 2; 3]].
+  split; [apply Permutation.perm_swap|]. split; [repeat constructor; cbn; intuition congruence|].
+  vm_compute. reflexivity.
 Qed.
